@@ -116,6 +116,14 @@ RereadJudged(o, op, val) ==
   ELSE IF \E j \in 1..Len(o.reread) : ~SameVal(NormMsg(o.reread[j]), val) THEN <<"delimited_frame_reads_back_other_value_after_" \o op, "">>
   ELSE <<"", "">>
 
+\* C04 along a history: the dict (both casings) and the JSON text written after this call are read back as the current value
+DictJudged(o, op, val) ==
+  IF o.dictback_res = "skipped" THEN <<"", "">>
+  ELSE IF o.dictback_res # "ok" THEN <<"dict_round_trip_" \o o.dictback_res \o "_after_" \o op, "">>
+  ELSE IF \E j \in 1..Len(o.dictback) : ~SameVal(NormMsg(o.dictback[j]), val)
+       THEN <<"dict_round_trip_gives_other_value_after_" \o op, { j \in 1..Len(o.dictback) : ~SameVal(NormMsg(o.dictback[j]), val) }>>
+  ELSE <<"", "">>
+
 Judge(idx, ty, st, e, want, judgeLen) ==
   LET o == e.obs  ov == NormMsg(o.val) IN
   IF e.res # want /\ e.op \notin Tolerated
@@ -142,6 +150,7 @@ Judge(idx, ty, st, e, want, judgeLen) ==
     ELSE IF e.op \in Copiers /\ ~e.samebytes THEN Fail(st, e.op \o "_bytes_differ_from_original", "")
     ELSE IF judgeLen /\ LenJudged(o, e.op)[1] # "" THEN Fail(st, LenJudged(o, e.op)[1], LenJudged(o, e.op)[2])
     ELSE IF judgeLen /\ RereadJudged(o, e.op, st.val)[1] # "" THEN Fail(st, RereadJudged(o, e.op, st.val)[1], RereadJudged(o, e.op, st.val)[2])
+    ELSE IF "dictback_res" \in DOMAIN o /\ DictJudged(o, e.op, st.val)[1] # "" THEN Fail(st, DictJudged(o, e.op, st.val)[1], DictJudged(o, e.op, st.val)[2])
     ELSE st
 
 Step(idx, ty, st, e, judgeLen) ==
